@@ -285,6 +285,7 @@ func runC18Parse(s *scn.Scenario, res *scn.Result) {
 	}
 	zzsim.Init(simConfig(s))
 	applyKnob(s.Knob)
+	zzsim.MinBlock = 1 << 62
 	markSites(s.Sched.SiteClass)
 	k := 0
 	for t := range s.Tasks {
@@ -303,6 +304,15 @@ func runC18Parse(s *scn.Scenario, res *scn.Result) {
 		return
 	}
 	snapshotPhase1(res)
+	if zzsim.MinBlock < 1 {
+		// with DefaultBlockSize = knob the tree asked for a pool with a
+		// non-positive block size (it derives sizes from the constant): the pools
+		// promise nothing for such a size, and the tree never meets it with its
+		// real constant. Not judged.
+		res.Probes["knob_made_the_tree_request_a_nonpositive_block_size"]++
+		res.OutcomeHash = "knob-artefact"
+		return
+	}
 	zzsim.Init(refConfig(s))
 	applyKnob(0)
 	zzsim.Spawn(func() {
